@@ -97,7 +97,12 @@ def inject_cond(r, spec):
     """(mutated spec, what) from a well-formed single-leaf condition spec {key: val}"""
     (key, val), = spec.items()
     toks = key.split(".")
-    choice = r.choice(["datum", "preproc", "preproc-na", "map-on-non-map", "callable", "arity-long", "arity-short", "several", "typename", "shape"])
+    choice = r.choice(["datum", "preproc", "preproc-na", "map-on-non-map", "op-tokens", "callable", "arity-long", "arity-short", "several", "typename", "shape"])
+    if choice == "op-tokens":
+        # an operator name followed by further key tokens (or in another letter case) is no operator
+        op = r.choice(["and", "or", "xor"])
+        k = r.choice([op + ".length", op + ".equal_to", op + ".dtype.equal_to", op + ".", "." + op, op.upper(), op.capitalize(), op + "." + op])
+        return {k: [spec, {"value.truthy": None}]}, "an operator name with extra key tokens / in another letter case"
     if choice == "map-on-non-map":
         # a callable that only mapping-valued classes offer, on a class that does not
         pre = r.choice([["index"], ["value", "length"], ["value", "dtype"], ["key", "len"], ["key", "type"], ["Index"]])
